@@ -152,9 +152,9 @@ class ControlTheory(Theory):
             return ip.to_str(st, fr, pos[0])
         if name == "cast":
             return [(st, pos[1])]
-        if name in ("iscoroutinefunction", "isfunction", "callable"):
+        if name in ("iscoroutinefunction", "isfunction", "callable", "isawaitable", "iscoroutine"):
             v = pos_d[0]
-            a = arr({"iscoroutinefunction": "is_corofunc", "isfunction": "is_function", "callable": "is_callable"}[name])
+            a = arr({"iscoroutinefunction": "is_corofunc", "isfunction": "is_function", "callable": "is_callable", "isawaitable": "is_awaitable", "iscoroutine": "is_awaitable"}[name])
             if isinstance(v, RefV):
                 return [(st, BoolV(z3.And(v.t != NONE, z3.Select(a, v.t))))]
             raise Unsupported(name + " of " + type(v).__name__)
@@ -298,6 +298,8 @@ class ControlTheory(Theory):
         ok.tags.append("call:returns")
         r = RefV(fresh("result", Ref))
         ok.aux["last_result"] = r.t
+        # the result of calling a coroutine function is awaitable (and nothing else is assumed to be)
+        ok.assume(z3.Implies(z3.And(f.t != NONE, z3.Select(arr("is_corofunc"), f.t)), z3.And(r.t != NONE, z3.Select(arr("is_awaitable"), r.t))))
         bad = st.fork()
         bad.tags.append("call:raises")
         e = ExcV("UserExc", [], ref=fresh("exc", Ref))
